@@ -575,70 +575,39 @@ func ruleSendGuard(c *Ctx) {
 	if safe == nil {
 		return
 	}
-	// isGoroutineSafe rejects the four kinds
+	// isGoroutineSafe, evaluated abstractly for each dynamic type of its argument (the spelling — a type
+	// switch, a chain of assertions, a comparison of Type() tags — does not matter)
 	{
-		g := p.G(safe)
-		rej := map[string]bool{}
-		mtOK := false
-		allInstrs(safe, func(in ssa.Instruction) {
-			r, ok := in.(*ssa.Return)
-			if !ok || !g.Live(in) {
-				return
+		param := safe.Params[0]
+		res := map[string]map[string]bool{}
+		for _, tn := range []string{"LFunction", "LUserData", "LState", "LTable", "LNumber", "LString", "LBool", "LNilType", "LChannel"} {
+			obj := p.Obj("lua", tn)
+			if obj == nil {
+				continue
 			}
-			// which type assertion succeeded on the way here
-			for _, cd := range g.CondsAtInstr(in) {
-				ex, ok := cd.V.(*ssa.Extract)
-				if !ok || !cd.Sense {
-					continue
-				}
-				ta, ok := ex.Tuple.(*ssa.TypeAssert)
-				if !ok {
-					continue
-				}
-				tn := types.TypeString(ta.AssertedType, func(*types.Package) string { return "" })
-				if b, isc := constBool(r.Results[0]); isc && !b {
-					rej[tn] = true
-				}
-				if tn == "*LTable" {
-					if bin, ok := r.Results[0].(*ssa.BinOp); ok && bin.Op == token.EQL {
-						if _, ok := loadsField(bin.X, p.Field("lua", "LTable", "Metatable")); ok {
-							mtOK = true
-						}
-					}
-				}
-				break
+			T := obj.Type()
+			// pointer receivers for the struct kinds
+			if _, isStruct := T.Underlying().(*types.Struct); isStruct {
+				T = types.NewPointer(T)
+			}
+			res[tn] = p.evalPredicateForType(safe, param, T)
+		}
+		only := func(m map[string]bool, v string) bool { return len(m) == 1 && m[v] }
+		var accepted []string
+		for _, tn := range []string{"LFunction", "LUserData", "LState"} {
+			if !only(res[tn], "false") {
+				accepted = append(accepted, tn)
+			}
+		}
+		c.check(len(accepted) == 0, R, "isGoroutineSafe:rejects-fn-ud-thread", p.pos(safe.Pos()), "functions, userdata and threads are refused", fmt.Sprintf("isGoroutineSafe can answer true for %v: such a value shares its state's globals, registry or up-values, and the receiving state would run or mutate them from another goroutine", accepted))
+		mtDepends := res["LTable"]["unknown"] || (res["LTable"]["true"] && res["LTable"]["false"])
+		mtRead := false
+		allInstrs(safe, func(in ssa.Instruction) {
+			if fa, ok := in.(*ssa.FieldAddr); ok && fieldOf(fa) == p.Field("lua", "LTable", "Metatable") {
+				mtRead = true
 			}
 		})
-		// multi-type case clauses share one return: handle `case *LFunction, *LUserData, *LState: return false`
-		if len(rej) < 3 {
-			falseRet := false
-			var asserted []string
-			allInstrs(safe, func(in ssa.Instruction) {
-				if ta, ok := in.(*ssa.TypeAssert); ok && ta.CommaOk {
-					asserted = append(asserted, types.TypeString(ta.AssertedType, func(*types.Package) string { return "" }))
-				}
-				if r, ok := in.(*ssa.Return); ok {
-					if b, isc := constBool(r.Results[0]); isc && !b {
-						falseRet = true
-						// every pred of this block must be the ok-edge of an assertion
-						for _, pr := range r.Block().Preds {
-							if iff, ok := pr.Instrs[len(pr.Instrs)-1].(*ssa.If); ok {
-								if ex, ok := iff.Cond.(*ssa.Extract); ok {
-									if ta, ok := ex.Tuple.(*ssa.TypeAssert); ok && pr.Succs[0] == r.Block() {
-										rej[types.TypeString(ta.AssertedType, func(*types.Package) string { return "" })] = true
-									}
-								}
-							}
-						}
-					}
-				}
-			})
-			_ = falseRet
-			_ = asserted
-		}
-		okr := rej["*LFunction"] && rej["*LUserData"] && rej["*LState"]
-		c.check(okr, R, "isGoroutineSafe:rejects-fn-ud-thread", p.pos(safe.Pos()), "functions, userdata and threads are refused", fmt.Sprintf("isGoroutineSafe no longer refuses all of function/userdata/thread (refused: %v)", sortedKeys(rej)))
-		c.check(mtOK, R, "isGoroutineSafe:table-needs-no-metatable", p.pos(safe.Pos()), "a table is accepted only without a metatable", "tables with metatables are accepted as channel payloads")
+		c.check(mtDepends && mtRead, R, "isGoroutineSafe:table-needs-no-metatable", p.pos(safe.Pos()), "a table is accepted only depending on its Metatable field", "tables with metatables are accepted as channel payloads")
 	}
 	// wrapper summary: a function returning its checked value
 	checked := map[*ssa.Function]bool{}
